@@ -34,7 +34,7 @@ from . import gen_classes, world
 
 NOVALUE = '<<novalue>>'
 MAX_STEPS = 16
-CONTROL = ('pause', 'play', 'kill', 'resume', 'fail', 'cancel', 'status')
+CONTROL = ('pause', 'play', 'kill', 'resume', 'fail', 'cancel', 'status', 'close')
 NOMSG = '__nomsg__'  # Kill() without a message
 
 
@@ -137,6 +137,8 @@ def control(proc, what, arg=None, who='ext'):
             ret = proc.future().cancel()
         elif what == 'status':
             ret = proc.set_status(arg)
+        elif what == 'close':
+            ret = proc.close()
         else:
             raise ValueError(f'unknown control call {what}')
         rec['ret'] = describe_ret(ret)
@@ -313,6 +315,15 @@ class ProgBase(HookMixin, ContextMixin, Process):
     def load_instance_state(self, saved_state, load_context):
         super().load_instance_state(saved_state, load_context)
         world.cur().extra.setdefault('instances', []).append(self)
+
+    def kill(self, msg_text=None):
+        if self.PROGRAM.get('wrapped_kill'):
+            # an application that does something asynchronous before it kills (here: nothing) hands back a future that
+            # resolves to whatever the library's kill() gave - possibly a pending action, i.e. a future again
+            fut = plumpy.futures.Future()
+            fut.set_result(super().kill(msg_text))
+            return fut
+        return super().kill(msg_text)
 
     def init(self):
         # the documented hook for what is common to created and recreated processes: here a helper that is built from
@@ -581,6 +592,20 @@ STOCK_COMMANDS = {'Continue': process_states.Continue, 'Wait': process_states.Wa
 SUBCLASS_COMMANDS = {'Continue': Retry, 'Wait': WaitForUpload, 'Stop': Verdict, 'Kill': Abort}
 
 
+class InterruptibleRunning(process_states.Running):
+    """A RUNNING state of an application whose long operations can be interrupted: interrupt(reason) is forwarded to
+    the operation the step is waiting for (here: the harness gate), which raises it inside the step function."""
+
+    def interrupt(self, reason):
+        w = world.cur()
+        for (pid, _name), fut in list(w.gates.items()):
+            if pid == self.process.pid and not fut.done():
+                fut.set_exception(reason)
+                w.gates.pop((pid, _name), None)  # the next wait on this gate gets a fresh future
+                return
+        super().interrupt(reason)
+
+
 class EagerWaiting(process_states.Waiting):
     """A WAITING state of an application that finds, while the state is being entered, that what it waits for is there
     already and resumes at once (custom state classes are installed through Process.get_state_classes(), as
@@ -599,7 +624,10 @@ class EagerWaiting(process_states.Waiting):
 
 def _eager_state_classes(cls):
     classes = dict(super(cls._pv_eager_owner, cls).get_state_classes())
-    classes[process_states.ProcessState.WAITING] = EagerWaiting
+    if cls.PROGRAM.get('eager_waiting'):
+        classes[process_states.ProcessState.WAITING] = EagerWaiting
+    if cls.PROGRAM.get('interruptible_running'):
+        classes[process_states.ProcessState.RUNNING] = InterruptibleRunning
     return classes
 
 
@@ -619,10 +647,10 @@ def make_class(program, base=None):
         namespace['_spec_class'] = port_model.spec_class_for(program['spec']['sep'])
     for idx, step in enumerate(steps):
         namespace[step_name(idx)] = _make_step(idx, bool(step.get('async')))
-    if program.get('eager_waiting'):
+    if program.get('eager_waiting') or program.get('interruptible_running'):
         namespace['get_state_classes'] = classmethod(_eager_state_classes)
     cls = type(name, (base or (CodecProg if program.get('codec') else ProgBase),), namespace)
-    if program.get('eager_waiting'):
+    if program.get('eager_waiting') or program.get('interruptible_running'):
         cls._pv_eager_owner = cls
     setattr(gen_classes, name, cls)
     _CLASS_COUNT += 1
